@@ -1,7 +1,7 @@
 """C17 configuration for /verif/check."""
 PROP = dict(
         module='kernel', pkg='device/tty', pkgname='tty', harness=['tty/c17_test.go'],
-        n=dict(quick=300, thorough=6000),
+        n=dict(quick=800, thorough=25000),
         nontrivial=r'^W \d [0-9a-f]+ \| ok',
         rule='one evaluation = one NewVT / AttachTo / Write / SetCursorPosition / SetState call on the real VT '
              '(attached to a recording mock console), replayed through the Lean VT model and the reference terminal; '
